@@ -75,8 +75,23 @@ impl Command {
 @*/
 
 /// FrameBox seen from CreatedFrame: the PDU area and the consumed length (real pointer code: Kani groups slots / frame_build)
-pub struct FrameBox { pub area: Vec<u8>, pub payload_len: usize }
+/*@type file=src/pdu_loop/frame_element/mod.rs name=FrameState derive="Clone, Copy, PartialEq, Eq, Debug" @*/
+pub open spec fn le16v(b: Seq<u8>) -> int { b[0] as int + 256 * (b[1] as int) }
+pub struct FrameBox { pub area: Vec<u8>, pub payload_len: usize, pub ecat_hdr: Vec<u8>, pub state: FrameState }
 impl FrameBox {
+    /// the two bytes of the EtherCAT frame header in front of the datagram area (pointer code: Kani frame_build::cf_mark_sendable)
+    #[verifier::external_body]
+    pub fn ecat_frame_header_mut(&mut self) -> (r: &mut [u8])
+        ensures r@ == old(self).ecat_hdr@, r@.len() == 2, final(self).ecat_hdr@ == final(r)@,
+            final(self).area@ == old(self).area@, final(self).payload_len == old(self).payload_len, final(self).state == old(self).state
+    { unimplemented!() }
+    /// the atomic state store.  ORDERING OBLIGATION (C02/C04): a frame is published to the transmit task (Sendable) only once its
+    /// frame header describes the datagrams in it - the store is a Release, everything written before it is what TX will send
+    #[verifier::external_body]
+    pub fn set_state(&mut self, st: FrameState)
+        requires st == FrameState::Sendable ==> le16v(old(self).ecat_hdr@) == old(self).payload_len + 0x1000
+        ensures final(self).state == st, final(self).ecat_hdr@ == old(self).ecat_hdr@, final(self).area@ == old(self).area@, final(self).payload_len == old(self).payload_len
+    { unimplemented!() }
     #[verifier::external_body]
     pub fn pdu_payload_len(&self) -> (r: usize) ensures r == self.payload_len { unimplemented!() }
     #[verifier::external_body]
@@ -177,6 +192,50 @@ impl CreatedFrame {
     proof {
         assert(pdu_buf@.len() == alloc_size);
     }
+@*/
+}
+
+// ---- CreatedFrame::mark_sendable: the hand-over of a filled frame to the transmit task ----
+/// hand-written wire impl of the 2-byte frame header (Kani frame_header_all_lengths: (len | 0x1000) little endian for every length)
+pub struct EthercatFrameHeader { pub payload_len: u16 }
+impl EthercatFrameHeader {
+    #[verifier::external_body]
+    pub fn pdu(len: u16) -> (r: Self)
+        requires len <= 0x7ff           // the `debug_assert!` of the real constructor (R2: an obligation of the caller)
+        ensures r.payload_len == len
+    { unimplemented!() }
+}
+impl EtherCrabWireWrite for EthercatFrameHeader {
+    open spec fn plen(&self) -> nat { 2 }
+    #[verifier::external_body]
+    fn packed_len(&self) -> (r: usize) { 2 }
+    #[verifier::external_body]
+    fn pack_to_slice_unchecked<'buf>(&self, buf: &'buf mut [u8]) -> (r: &'buf [u8])
+        ensures le16v(final(buf)@) == self.payload_len + 0x1000
+    { unimplemented!() }
+}
+#[derive(Clone, Copy)]
+pub struct LabeledTimeout { pub _p: u8 }
+pub struct Timer { pub armed_with: LabeledTimeout }
+/// timer_factory::timer: a timer armed with this timeout
+#[verifier::external_body]
+pub fn timer(timeout: LabeledTimeout) -> (r: Timer) ensures r.armed_with == timeout { unimplemented!() }
+/// `&'sto PduLoop<'sto>` (only handed on)
+#[derive(Clone, Copy)]
+pub struct PduLoopRef { pub _p: u8 }
+/*@type file=src/pdu_loop/frame_element/receiving_frame.rs name=ReceiveFrameFut subst="<'sto>=>@@FrameBox<'sto>=>FrameBox@@&'sto PduLoop<'sto>=>PduLoopRef@@crate::timer_factory::Timer=>Timer@@crate::timer_factory::LabeledTimeout=>LabeledTimeout" @*/
+
+impl CreatedFrame {
+/*@fn file=src/pdu_loop/frame_element/created_frame.rs impl="impl<'sto> CreatedFrame<'sto>" name=mark_sendable subst="&'sto PduLoop<'sto>=>PduLoopRef@@ReceiveFrameFut<'sto>=>ReceiveFrameFut@@crate::timer_factory::LabeledTimeout=>LabeledTimeout@@crate::timer_factory::timer(=>timer(" props=C04,C02,C06
+    requires self.wf()
+    ensures
+        // the frame goes to the transmit task with a header that says how many datagram bytes follow (protocol type 1), its
+        // datagram area untouched, state Sendable; the future holds THIS frame, the caller's retry count and a timer armed with
+        // the caller's timeout
+        r.frame is Some && (r.frame->Some_0).state == FrameState::Sendable
+            && le16v((r.frame->Some_0).ecat_hdr@) == self.inner.payload_len + 0x1000
+            && (r.frame->Some_0).area@ == self.inner.area@ && (r.frame->Some_0).payload_len == self.inner.payload_len
+            && r.retries_left == retries && r.timeout == timeout && r.timeout_timer.armed_with == timeout,
 @*/
 }
 
